@@ -137,9 +137,13 @@ func (fv *FV) havocAll(e *Env) {
 	mono := map[string]Term{} // counters that may have been bumped: they only grow
 	for _, b := range fv.eng.bumpRe {
 		comp := "G$" + sanitize(b.name)
+		_, used := fv.compSort[comp]
+		if !used && !fv.contractMentions(b.name) {
+			continue // a counter this function neither bumps, reads nor names: nothing to carry across the havoc
+		}
 		if fv.keepCounters != nil && !fv.keepCounters[bumpAll] && !fv.keepCounters[b.name] {
 			keep[comp] = fv.heapGet(e, comp, arrSort(sRef, sInt))
-		} else if _, used := fv.compSort[comp]; used || fv.contractMentions(b.name) {
+		} else if used || fv.contractMentions(b.name) {
 			mono[comp] = fv.heapGet(e, comp, arrSort(sRef, sInt))
 		}
 	}
@@ -232,7 +236,7 @@ func (fv *FV) mergeEnvs(envs []*Env) *Env {
 		if same {
 			return ts[0]
 		}
-		if len(ts) == 2 {
+		if len(ts) == 2 && !strings.HasPrefix(ts[0].Sort, "(Array") {
 			n := fv.s.freshConst(name, ts[0].Sort)
 			fv.s.assume(eq(n, ite(pcs[0], ts[0], ts[1])))
 			return n
@@ -495,10 +499,21 @@ func (fv *FV) contractMentions(counter string) bool {
 	}
 	c := fv.u.C
 	found := false
+	// ghost functions of the package whose body names the counter stand for it
+	names := []string{short}
+	if fv.u.Spec != nil {
+		for _, g := range fv.u.Spec.Ghosts {
+			if strings.Contains(g.Src, short) {
+				names = append(names, g.Name+"(")
+			}
+		}
+	}
 	scan := func(cls []*Clause) {
 		for _, cl := range cls {
-			if strings.Contains(cl.Text, short) {
-				found = true
+			for _, n := range names {
+				if strings.Contains(cl.Text, n) {
+					found = true
+				}
 			}
 		}
 	}
